@@ -10,7 +10,7 @@ EDGE_JUNK = [b"\x0b", b"\x0c", b"\xc2\x85", b"\xc2\xa0", b"\xe2\x80\xa8", b"\xe3
 
 class C14(Prop):
     pid = "C14"
-    fields = {"jsonsnap": "*", "obs": ["outcome", "errors", "logs", "writes", "~line"], "fs": "*"}
+    fields = {"jsonsnap": ["valid", "text"], "obs": ["outcome", "errors", "logs", "writes", "~line"], "fs": "*"}
     rule = ("random JSON ASTs (depth <= 4, empty containers, keys/strings with escapes, unicode, `%`, `---`; numbers of all "
             "lexical shapes) each rendered in several presentations (random insignificant whitespace, shuffled member order) "
             "x input form {string, []byte, Go value} x options (width 0/20/80, indent '', ' ', tab, sort on/off); a malformed "
@@ -143,6 +143,16 @@ class C14(Prop):
                         fails.append({"msg": "stored text is not the input value: %s" % ast[:80]})
                 except ValueError:
                     fails.append({"msg": "stored text does not parse: %r" % unhx(t)[:60]})
+        # a Go value is stored as its standard JSON encoding would be if handed over as []byte (`std`, computed by the harness
+        # through the same library path): "the same text for all three" input forms
+        for raw, r_ in zip(raw_ops, res):
+            if raw.get("form") in ("value", "rawmsg"):
+                std = r_[2].get("std", "-")
+                if std == "!" and r_[2].get("valid") == "1":
+                    fails.append({"msg": "jsonsnap %s: a Go value is accepted but its standard JSON encoding, as []byte, is rejected" % r_[1]})
+                elif std not in ("-", "!") and r_[2].get("valid") == "1" and std != r_[2].get("text"):
+                    fails.append({"msg": "jsonsnap %s: a Go value is stored differently from its standard JSON encoding handed over as []byte: %r vs %r" % (
+                        r_[1], unhx(r_[2].get("text"))[:80], unhx(std)[:80])})
         # malformed stream: judged by a strict parser
         for (name, kv), (_, idx, o), raw in zip(jops, res, raw_ops):
             if raw.get("maybe_bad"):
